@@ -42,8 +42,12 @@ FakeKeyOp(L, op, x, y) ==
   CASE op = "press" -> EventL(L, Qd(TRUE, x, y))
     [] op = "release" -> EventL(L, Qd(FALSE, x, y))
     [] op = "tap" -> EventL(EventL(L, Qd(TRUE, x, y)), Qd(FALSE, x, y))
-    [] op = "toggle" -> IF StatesHasCoord(L, x, y) THEN EventL(L, Qd(FALSE, x, y))
-                        ELSE EventL(L, Qd(TRUE, x, y))
+    \* since fix cc71619: the most recent queued event of the coordinate decides what "pressed" means,
+    \* only when nothing is in flight do the processed states tell (Bug "toggle_states_only" = before the fix)
+    [] op = "toggle" ->
+         LET qi == LastIdx(L.queue, LAMBDA e : e.x = x /\ e.y = y)
+             pressed == IF qi # 0 /\ Bug # "toggle_states_only" THEN L.queue[qi].p ELSE StatesHasCoord(L, x, y)
+         IN IF pressed THEN EventL(L, Qd(FALSE, x, y)) ELSE EventL(L, Qd(TRUE, x, y))
 
 \* ----- handle_input_event (702-745) ----------------------------------------------
 HandleInput(K, kind, code) ==
